@@ -330,7 +330,7 @@ def _run(chk, tier, rng, binary, binary2, gdir):
                  "and steps from small integer sets), every balanced splitting of an 8-cell tile into two 4-cell patches (35 patterns per tile shape: "
                  "S/L/T/I shapes, disconnected pieces), runs of consecutive cells, pseudo-random and Voronoi assignments (seeded by VERIF_SEED) for "
                  "16x16 / 24x24 quad, 6x6x6 hexa, 8x8x4 triangle, 2x2x2x24 tetrahedron meshes and refined shipped meshes (2-level numbering); "
-                 "quick runs 2-3 seeded configurations per mesh, thorough up to 36 per mesh (more meshes); each = extract_patch for all 48..288 "
+                 "quick runs 2-3 seeded configurations per mesh, thorough up to 24 per mesh (more meshes); each = extract_patch for all 48..288 "
                  "ranks + 1..2 joint refinements; level 0 judged by Partition.tla verbatim, the refined levels by the same clauses through an "
                  "entity table (spec/PartitionManyCheck.tla), incl. position-wise equality of the two halos of every neighbour pair.")
 
